@@ -303,3 +303,72 @@ pub fn replay(image_path: &str, history_path: &str) {
         CaseResult::Hang { history } => println!("ORACLE replay: {} made no progress for 15 s (hang)", history.last().cloned().unwrap_or_default()),
     }
 }
+
+// ---------------------------------------------------------------------------------------------
+// C10 on files the library did not write: a refused call must not change a byte, also when the file
+// stores entries in a non-canonical (tolerated) form.
+
+/// For every base image that permissive open accepts: refusals of every class aimed at what the file
+/// shows; after each refused call the backing bytes are compared with the bytes before it.
+pub fn refusal_campaign(seed: u64, bases: &str, per_image: u64) {
+    let mut rng = Rng::new(seed);
+    let files: Vec<String> = std::fs::read_to_string(bases).unwrap().lines().filter(|l| !l.is_empty()).map(|s| s.to_string()).collect();
+    let (mut images, mut calls, mut refused) = (0u64, 0u64, 0u64);
+    let mut seen = std::collections::HashSet::new();
+    for f in files {
+        let Ok(b) = std::fs::read(&f) else { continue };
+        let shared = SharedFile::new(b);
+        let Ok(Ok(comp)) = catch(|| CompoundFile::open(Backend::Mem(shared.clone()))) else { continue };
+        images += 1;
+        let mut real = Real::new();
+        real.file = Some(ImageSource::Mem(shared.clone()));
+        real.comp = Some(comp);
+        let listing: Vec<(String, bool)> = real.comp.as_ref().unwrap().walk().take(300).map(|e| (e.path().to_string_lossy().to_string(), e.is_stream())).collect();
+        let streams: Vec<&String> = listing.iter().filter(|x| x.1).map(|x| &x.0).collect();
+        let storages: Vec<&String> = listing.iter().filter(|x| !x.1 && x.0 != "/").map(|x| &x.0).collect();
+        for step in 0..per_image {
+            let some_stream = if streams.is_empty() { "/nostream".to_string() } else { (*rng.pick(&streams)).clone() };
+            let some_storage = if storages.is_empty() { "/".to_string() } else { (*rng.pick(&storages)).clone() };
+            let missing = format!("{}/zz-missing-{}", if rng.chance(1, 2) { "" } else { &some_storage[..] }, step);
+            let line = match rng.below(16) {
+                0 => format!("setclsid {} {}", enc(&some_stream), hex(&[7u8; 16])),
+                1 => format!("setclsid {} {}", enc(&some_stream), hex(&[0u8; 16])),
+                2 => format!("setbits {} 5", enc(&missing)),
+                3 => format!("setctime {} 1000 0", enc(&missing)),
+                4 => format!("rmdir {}", enc(&some_stream)),
+                5 => format!("rm {}", enc(&some_storage)),
+                6 => format!("rm {}", enc(&missing)),
+                7 => format!("mknew {}", enc(&some_stream)),
+                8 => format!("mkdir {}", enc(&some_storage)),
+                9 => format!("mkdir {}", enc(&some_stream)),
+                10 => format!("put {} {}", enc(&format!("{}/child", some_stream)), hex(&pattern(10, step))),
+                11 => format!("mkstream {}", enc(&some_storage)),
+                12 => format!("hopen 5 {}", enc(&some_storage)),
+                13 => format!("mkdir {}", enc(&format!("{}/bad:name", some_storage))),
+                14 => format!("mkdirs {}", enc(&format!("{}/x/y", some_stream))),
+                _ => format!("rmdir {}", enc(&missing)),
+            };
+            let before = shared.snapshot();
+            let r = real.exec(&line);
+            calls += 1;
+            if r == "panic" {
+                println!("ORACLE refusal on {}: {} panicked: {}", f, short(&line), real.last_panic.take().unwrap_or_default());
+                break;
+            }
+            if crate::apigen::is_refusal(&r) {
+                refused += 1;
+                let after = shared.snapshot();
+                if after != before {
+                    let first = before.iter().zip(after.iter()).position(|(a, b)| a != b).unwrap_or(before.len().min(after.len()));
+                    let kind = line.split(' ').next().unwrap().to_string();
+                    if seen.insert(kind.clone()) {
+                        println!("ORACLE refusal on {}: {} was refused ({}) but the file's bytes changed (first difference at offset {}, length {} -> {})", f, short(&line), r, first, before.len(), after.len());
+                    }
+                }
+            }
+        }
+    }
+    println!("STAT refusal_images {}", images);
+    println!("STAT refusal_calls {}", calls);
+    println!("STAT refused {}", refused);
+}
